@@ -705,21 +705,35 @@ def check_sarkka(ctx, c, use_driver=True):
                              c["sr"], tuple(c["inputs"]), c["data"].tobytes()) if nontrivial else None)
 
 
-def sarkka_exhaustive(ctx):
-    """every lag set over {1,2,3} x every duration 1..(2·period+1 capped) x num_periods 1..2, one 2-state var."""
+def _sarkka_grid_case(rng, lags, T, npz, srname):
+    kind = SEMIRINGS[srname][3]
+    inputs = [("time", T), ("x", 2)] + [("_PREV_" * l + "x", 2) for l in lags]
+    data = gen_data(rng, tuple(s for _, s in inputs), kind)
+    return dict(vars=["x"], lagsets={"x": list(lags)}, sizes={"x": 2}, S=2, k=max(lags), T=T,
+                num_periods=npz, sr=srname, glob=False, inputs=inputs, data=data)
+
+
+def sarkka_exhaustive(ctx, use_driver=True):
+    """The whole grid {lag sets over {1,2,3}} x duration 1..13 x num_periods {1,2}, one 2-state variable: reaches
+    two full periods (two contracted blocks) for the period-6 lag sets {2,3}, {1,3}... {1,2,3} (duration 12, 13).
+    quick: one semiring per cell, rotating with the seed; thorough: every semiring, plus the lag sets that
+    contain 4 (periods 4 and 12) up to duration 25 in add-mul."""
     rng = ctx.rng
-    for lags in LAGSETS:
-        p = int(np.lcm.reduce(lags))
-        maxT = min(2 * p + 1, 9 if ctx.tier == "quick" else 13)
-        for T in range(1, maxT + 1):
+    names = list(SEMIRINGS)
+    seed = int(ctx.seed) if str(ctx.seed).lstrip("-").isdigit() else 0
+    for li, lags in enumerate(LAGSETS):
+        for T in range(1, 14):
             for npz in (1, 2):
-                srname = rng.choice(list(SEMIRINGS))
-                kind = SEMIRINGS[srname][3]
-                inputs = [("time", T), ("x", 2)] + [("_PREV_" * l + "x", 2) for l in lags]
-                data = gen_data(rng, tuple(s for _, s in inputs), kind)
-                c = dict(vars=["x"], lagsets={"x": list(lags)}, sizes={"x": 2}, S=2, k=max(lags), T=T,
-                         num_periods=npz, sr=srname, glob=False, inputs=inputs, data=data)
-                check_sarkka(ctx, c)
+                srs = names if ctx.tier != "quick" else [names[(seed + li + T + npz) % len(names)]]
+                for srname in srs:
+                    check_sarkka(ctx, _sarkka_grid_case(rng, lags, T, npz, srname), use_driver=use_driver)
+                    ctx.count("sarkka:grid")
+    if ctx.tier != "quick":
+        for sub in itertools.product([0, 1], repeat=3):
+            lags = [l for l, on in zip((1, 2, 3), sub) if on] + [4]
+            for T in range(1, 26):
+                check_sarkka(ctx, _sarkka_grid_case(rng, lags, T, 1 + (T % 2), "add-mul"), use_driver=use_driver)
+                ctx.count("sarkka:grid4")
 
 
 def name_arith_cases(ctx):
@@ -1207,6 +1221,97 @@ def logeinsum_underflow_known(ctx):
         ctx.count("kf-logeinsum-underflow:" + ("reproduced-unlisted" if reproduced else "not-reproduced"))
 
 
+# --------------------------------------------------------------------------------------
+# translator: the index expressions of sarkka_bilmes_product, as written in the source
+# --------------------------------------------------------------------------------------
+
+def _sarkka_forms(fn_node):
+    """The pieces of sarkka_bilmes_product the model FV.C10.SB transcribes, unparsed from the AST."""
+    import ast
+    out = dict(period="", slice_t="", shift="", step_key="", step_value="", step_iter="", step_conds=[],
+               block_time="", num_segments="", final_sum_vars="", final_rename="", lags_discard="")
+    for node in ast.walk(fn_node):
+        if isinstance(node, ast.Assign) and len(node.targets) == 1 and isinstance(node.targets[0], ast.Name):
+            tgt = node.targets[0].id
+            v = node.value
+            if tgt == "period":
+                out["period"] = ast.unparse(v)
+            elif tgt == "slice_t":
+                out["slice_t"] = ast.unparse(v)
+            elif tgt == "factor" and isinstance(v, ast.Call) and ast.unparse(v.func) == "_shift_funsor":
+                out["shift"] = ast.unparse(v.args[1]) if len(v.args) > 1 else ""
+            elif tgt == "block_step" and isinstance(v, ast.DictComp):
+                out["step_key"] = ast.unparse(v.key)
+                out["step_value"] = ast.unparse(v.value)
+                gen0 = v.generators[0]
+                out["step_iter"] = ast.unparse(gen0.iter)
+                conds = []
+                for cnd in gen0.ifs:
+                    if isinstance(cnd, ast.BoolOp) and isinstance(cnd.op, ast.And):
+                        conds += [ast.unparse(x) for x in cnd.values]
+                    else:
+                        conds.append(ast.unparse(cnd))
+                out["step_conds"] = conds
+            elif tgt == "block_step":
+                out["step_key"] = "<not a dict comprehension> " + ast.unparse(v)[:80]
+            elif tgt == "block_time_var":
+                out["block_time"] = ast.unparse(v)
+            elif tgt == "final_sum_vars":
+                out["final_sum_vars"] = ast.unparse(v)
+        if isinstance(node, ast.keyword) and node.arg == "num_segments":
+            out["num_segments"] = ast.unparse(node.value)
+    # the last `result = result(**{...})` of the function is the final renaming
+    for node in fn_node.body:
+        if isinstance(node, ast.Assign) and ast.unparse(node.targets[0]) == "result":
+            out["final_rename"] = ast.unparse(node.value)
+    return out
+
+
+def extract(ctx):
+    """Regenerate lean/FunsorVerif/Gen/C10Sarkka.lean from /repo/funsor/sum_product.py (AST of the file, cross-checked
+    with the source of the live function): the expressions the model transcribes — period, slice_t, the block shift,
+    the block_step comprehension (key, value, iterable, conditions), block time, num_segments, final_sum_vars and the
+    final renaming.  Props/C10/Gen.lean states that they are the reviewed forms."""
+    import ast
+    import inspect
+    import textwrap
+    from ..common import REPO, LEAN
+    import funsor.sum_product as sp
+    src = (REPO / "funsor" / "sum_product.py").read_text()
+    tree = ast.parse(src)
+    node = next((n for n in tree.body if isinstance(n, ast.FunctionDef) and n.name == "sarkka_bilmes_product"), None)
+    forms = _sarkka_forms(node) if node is not None else _sarkka_forms(ast.parse("def f():\n    pass").body[0])
+    try:
+        live = ast.parse(textwrap.dedent(inspect.getsource(sp.sarkka_bilmes_product))).body[0]
+        if _sarkka_forms(live) != forms:
+            ctx.infra_errors.append("C10 extract: live sarkka_bilmes_product differs from the file on disk")
+    except (OSError, TypeError, AttributeError) as ex:
+        ctx.infra_errors.append(f"C10 extract: cannot read live source: {ex}")
+
+    def q(x):
+        return '"' + x.replace("\\", "\\\\").replace('"', '\\"') + '"'
+    lines = ["/- GENERATED by fv/harness/c10.py:extract from /repo/funsor/sum_product.py on every run. Do not edit. -/",
+             "namespace FV.Gen.C10", "",
+             "/-- index expressions of sarkka_bilmes_product, as written -/",
+             f"def period : String := {q(forms['period'])}",
+             f"def sliceT : String := {q(forms['slice_t'])}",
+             f"def blockShift : String := {q(forms['shift'])}",
+             f"def blockStepKey : String := {q(forms['step_key'])}",
+             f"def blockStepValue : String := {q(forms['step_value'])}",
+             f"def blockStepIter : String := {q(forms['step_iter'])}",
+             f"def blockStepConds : List String := [{', '.join(q(x) for x in forms['step_conds'])}]",
+             f"def blockTime : String := {q(forms['block_time'])}",
+             f"def numSegments : String := {q(forms['num_segments'])}",
+             f"def finalSumVars : String := {q(forms['final_sum_vars'])}",
+             f"def finalRename : String := {q(forms['final_rename'])}",
+             "", "end FV.Gen.C10", ""]
+    out = LEAN / "FunsorVerif" / "Gen" / "C10Sarkka.lean"
+    txt = "\n".join(lines)
+    if not out.exists() or out.read_text() != txt:
+        out.write_text(txt)
+    ctx.extra["sarkka_forms"] = forms
+
+
 def exhaustive_small(ctx):
     """All durations 1..12 x all num_segments for one 2x2 time-dependent transition per semiring."""
     rng = ctx.rng
@@ -1230,7 +1335,9 @@ def correspond(ctx):
                 "inputs, time/batch (in)dependence, shuffled input order, 5 semirings, algorithms seq/naive/mixed(k)/"
                 "MarkovProduct eager+lazy; plus every duration x every num_segments exhaustively for a 2-state chain; "
                 "plus sarkka_bilmes and naive_sarkka_bilmes vs the Lean window-chain fold: every lag set over {1,2,3} x "
-                "durations 1..2*period+1 x num_periods 1..2 exhaustively for one 2-state variable, and random cases with "
+                "durations 1..13 (two full periods also for period 6) x num_periods 1..2 exhaustively for one 2-state "
+                "variable (quick: one semiring per cell rotating with the seed; thorough: all five, plus lag sets with 4 up to "
+                "duration 25), and random cases with "
                 "1-2 variables (own lag sets, possibly none), sizes 1-3, optional global input, num_periods 1..3, "
                 "5 semirings; _get_shift/_shift_name vs the Lean string functions; MarkovProduct with empty step "
                 "(time-dependent and not, eager/lazy/reflect+reinterpret) and MarkovProduct(...)(**renaming) "
@@ -1282,6 +1389,9 @@ def search(ctx, broken):
         check_case(ctx, c, use_driver=False)
         if len([f for f in ctx.failures if f.witness is not None]) > before:
             return
+    sarkka_exhaustive(ctx, use_driver=False)
+    if len([f for f in ctx.failures if f.witness is not None]) > before:
+        return
     for _ in range(1200):
         check_sarkka(ctx, gen_sarkka(ctx.rng, ctx.tier), use_driver=False)
         if len([f for f in ctx.failures if f.witness is not None]) > before:
